@@ -388,6 +388,10 @@ func normalise(as []codec.Atom) []codec.Atom {
 	}
 	var out []codec.Atom
 	for _, a := range foldIndexed(exp) {
+		// the N single bytes of a byte-array field, one by one, are that field's N bytes
+		if n, err := strconv.Atoi(a.Over); a.Kind == "repeat" && err == nil && len(a.Body) == 1 && a.Body[0].Kind == "fixed" && a.Body[0].Width == 1 && strings.HasSuffix(a.Body[0].Field, "[*]") {
+			a = codec.Atom{Kind: "bytes", Field: strings.TrimSuffix(a.Body[0].Field, "[*]"), Width: n, Cond: a.Cond, Pos: a.Pos}
+		}
 		if a.Kind == "const" && len(out) > 0 && out[len(out)-1].Kind == "const" && out[len(out)-1].Cond == a.Cond {
 			p := &out[len(out)-1]
 			p.Width += a.Width
